@@ -5,7 +5,7 @@ CONSTANTS
   B = 2
   MaxFail = 2
   MaxCancel = 2
-  Defects = {"LateSubmit"}
+  Defects = {}
   RankOf <- Ranks
   Depth = 90
 CONSTRAINT Emit
